@@ -252,7 +252,8 @@ def pool_pel(draw):
     creator = draw(st.sampled_from([ord('O'), ord('O'), ord('O'), ord('B'), ord('B'), ord('K'), ord('M'), ord('H')]))
     kind = draw(st.sampled_from(['rich', 'rich', 'rich', 'damaged', 'plugin-heavy']))
     secs = []
-    if kind == 'plugin-heavy' or draw(st.booleans()):
+    served = creator in (ord('B'), ord('K'))        # creators with fixture SRC / call-out parsers
+    if kind == 'plugin-heavy' or draw(st.booleans()) or (served and draw(st.integers(0, 3)) != 0):
         if creator == ord('O'):
             # BMC PELs: ordinary and hostboot (BC) codes that share the component byte, with and without a parser
             code = draw(st.sampled_from(['BD8D2600', 'BC8A2601', 'BD8DE510', 'BC8AE510', 'BD8D2601', '11002600',
@@ -261,11 +262,11 @@ def pool_pel(draw):
             code = draw(st.sampled_from(['BD8D2600', 'BD8D2601', 'BD8D2602', '11002600', 'BC8A8A01', 'B7001234',
                                          'BD00E510', 'BC8AE510']))
         cl = None
-        if draw(st.booleans()):
+        if draw(st.booleans()) or served:
             cs = []
-            for _ in range(draw(st.integers(1, 2))):
+            for _ in range(draw(st.integers(1, 3 if served else 2))):
                 c = draw(S.callout())
-                if draw(st.booleans()):
+                if draw(st.booleans()) or served:
                     c['fru']['flags'] = (c['fru']['flags'] & 0xF0) | 0x02
                     c['fru']['pn'] = M.pad_text(draw(st.sampled_from(['BMC0001', 'PROC001', 'PROC003', 'PROC004', 'PROC005', 'FSI0042'])), 8)
                 cs.append(c)
